@@ -293,6 +293,8 @@ class Dim:
                         if not ok and s.final: s.report(e, "min/max", d, v[1])
                 return num(d)
             if name == "int": return a0 if a0[0] == "num" else num(None)
+            if name == "Fraction" and len(args) == 1 and not e.keywords:
+                return args[0] if args[0][0] == "num" else num(0)       # Fraction(x) is x
             if name in ("len", "Fraction", "range", "id"): return num(0)
             if name == "enumerate": return ("enum", a0)
             if name == "zip": return ("zip", tuple(args))
